@@ -39,14 +39,17 @@ theorem phaseSafe_of_nonNYR (p : Pool) (t : Nat) (f : PTask → PTask) (hp : ∀
                             fun e => by have h := hp x; rw [e] at h; exact absurd h (by decide)⟩)
 
 /-- any update of an unreleased task that keeps `released` preserves `Good`, whatever phase it enters -/
-theorem good_modTask_unreleased {cap : Nat} (p : Pool) (t : Nat) (f : PTask → PTask)
+theorem good_modTask_unreleased {cap : Cap} (p : Pool) (t : Nat) (f : PTask → PTask)
     (hg : Good cap p) (hu : p.Unreleased t) (hr : ∀ x, (f x).released = x.released) (hc : PhaseSafe p t f) :
     Good cap (p.modTask t f) ∧ (p.modTask t f).Unreleased t := by
   obtain ⟨tk, a, b⟩ := hu
   have hget : (p.modTask t f).tasks[t]? = some (f tk) := by simp [modTask, a]
   refine ⟨⟨?_, ?_, hg.reg.modTask t f hr hc⟩, ⟨f tk, hget, by rw [hr]; exact b⟩⟩
-  · obtain ⟨v, hv, hs⟩ := hg.slot
-    exact ⟨v, hv, by simp only [modTask]; rw [heldL_modify_same _ _ _ hr]; exact hs⟩
+  · cases cap with
+    | fin n =>
+      obtain ⟨v, hv, hs⟩ := hg.slot
+      exact ⟨v, hv, by simp only [modTask]; rw [heldL_modify_same _ _ _ hr]; exact hs⟩
+    | inf => exact hg.slot
   · intro i tk' h hn
     obtain ⟨x, hx, rfl⟩ := getElem?_modify_some p.tasks t i f tk' h
     split
@@ -87,7 +90,7 @@ theorem tame_suspendTask_endCb (p : Pool) (t) : Tame p (p.suspendTask t .inEndCb
         (tame_modTask p t _ (fun _ => rfl) (fun _ => Or.inr rfl)) (tame_schedTask _ _)
     · exact tame_modTask p t _ (fun _ => rfl) (fun _ => Or.inr rfl)
 
-theorem good_suspendTask {cap : Nat} (p : Pool) (t : Nat) (ph : Phase) (hg : Good cap p) (hu : p.Unreleased t)
+theorem good_suspendTask {cap : Cap} (p : Pool) (t : Nat) (ph : Phase) (hg : Good cap p) (hu : p.Unreleased t)
     (hc : t ∉ p.cancelledR ∨ (ph ≠ .created ∧ ph ≠ .inWorker)) :
     Good cap (p.suspendTask t ph) := by
   have hs1 : PhaseSafe p t (fun k => { k with phase := ph, fut := .cancelled, mustCancel := false }) :=
@@ -130,10 +133,10 @@ theorem tame_endCallback (p : Pool) (t tk) : Tame p (p.endCallback t tk) := by
   · exact h
   · exact h.trans (tame_finishTask _ t)
 
-theorem good_setLost {cap : Nat} (p : Pool) (hg : Good cap p) : Good cap ({ p with lost := true } : Pool) :=
+theorem good_setLost {cap : Cap} (p : Pool) (hg : Good cap p) : Good cap ({ p with lost := true } : Pool) :=
   ⟨hg.slot, hg.phase, hg.reg.setLost⟩
 
-theorem good_keyErrorFinish {cap : Nat} (p : Pool) (t) (hg : Good cap p) : Good cap (p.keyErrorFinish t) := by
+theorem good_keyErrorFinish {cap : Cap} (p : Pool) (t) (hg : Good cap p) : Good cap (p.keyErrorFinish t) := by
   unfold keyErrorFinish
   refine Tame.good ?_ (good_setLost p hg)
   exact Tame.trans (q := ({ p with lost := true } : Pool).modTask t fun k => { k with pendingExc := some .keyError })
@@ -166,6 +169,23 @@ theorem wakeNextL_sum (n : Nat) (ws : List Waiter) (hn : 0 < n) (c : Cap) (ws' :
       refine ⟨v', h1, ?_⟩
       simp only [grantsL, List.countP_cons] at h2 ⊢
       omega
+
+theorem wakeNextL_inf (ws : List Waiter) : (wakeNextL .inf ws).1 = .inf := by
+  induction ws with
+  | nil => rfl
+  | cons w ws ih =>
+    unfold wakeNextL
+    split
+    · rfl
+    · simp only; exact ih
+
+theorem releasePool_inf (p : Pool) (hv : p.sem.value = .inf) (hw : p.sem.waiters = []) :
+    p.releasePool.sem.value = .inf ∧ p.releasePool.sem.waiters = [] := by
+  unfold releasePool Sem.release Sem.wakeNext
+  simp [hv, hw, Cap.inc, wakeNextL]
+
+theorem releasePool_tasks' (p : Pool) : p.releasePool.tasks = p.tasks := by
+  unfold releasePool; simp
 
 /-- `release()`: value + grants goes up by exactly one; tasks untouched -/
 theorem releasePool_effect (p : Pool) (v : Nat) (hv : p.sem.value = .fin v) :
@@ -206,18 +226,25 @@ theorem moveToEnded_lost (p p1 : Pool) (t : Nat) (h : p.moveToEnded t = some p1)
     · simp at h
 
 /-- the id is filed as ended, the slot is given back and the task marked released — for a task that is ready to end -/
-theorem good_moveRelease {cap : Nat} (p p1 : Pool) (t : Nat) (hg : Good cap p) (hr : p.ReadyToEnd t)
+theorem good_moveRelease {cap : Cap} (p p1 : Pool) (t : Nat) (hg : Good cap p) (hr : p.ReadyToEnd t)
     (hm : p.moveToEnded t = some p1) :
     Good cap ((p1.releasePool).modTask t fun k => { k with released := true }) := by
   obtain ⟨tk, a, b, c⟩ := hr
   obtain ⟨hs1, ht1⟩ := moveToEnded_frame p p1 t hm
-  obtain ⟨v, hv, hs⟩ := hg.slot
-  obtain ⟨v', h1, h2, h3⟩ := releasePool_effect p1 v (by rw [hs1]; exact hv)
+  have h3 : p1.releasePool.tasks = p1.tasks := releasePool_tasks' p1
   obtain ⟨r1, r2, r3, r4⟩ := releasePool_regs p1
-  refine ⟨⟨v', by simpa using h1, ?_⟩, ?_, ?_⟩
-  · have := heldL_modify_release p.tasks t tk (fun k => { k with released := true }) a b (fun _ => rfl)
-    simp only [modTask_sem, modTask_tasks, h3, ht1, hs1] at *
-    omega
+  refine ⟨?_, ?_, ?_⟩
+  · cases cap with
+    | fin n =>
+      obtain ⟨v, hv, hs⟩ := hg.slot
+      obtain ⟨v', h1, h2, _⟩ := releasePool_effect p1 v (by rw [hs1]; exact hv)
+      refine ⟨v', by simpa using h1, ?_⟩
+      have := heldL_modify_release p.tasks t tk (fun k => { k with released := true }) a b (fun _ => rfl)
+      simp only [modTask_sem, modTask_tasks, h3, ht1, hs1] at *
+      omega
+    | inf =>
+      have hv : p1.sem.value = .inf ∧ p1.sem.waiters = [] := by rw [hs1]; exact hg.slot
+      exact releasePool_inf p1 hv.1 hv.2
   · intro i tk' h hn
     simp only [modTask, h3, ht1] at h
     obtain ⟨x, hx, rfl⟩ := getElem?_modify_some p.tasks t i _ tk' h
@@ -230,7 +257,7 @@ theorem good_moveRelease {cap : Nat} (p p1 : Pool) (t : Nat) (hg : Good cap p) (
   · exact hg.reg.moveRelease t hm _ r1 r2 r3 (r4.trans (moveToEnded_lost p p1 t hm)) (by simp [modTask, h3, ht1])
 
 /-- `_task_ending` for a task that is ready to end -/
-theorem good_taskEnding {cap : Nat} (p : Pool) (t : Nat) (hg : Good cap p) (hr : p.ReadyToEnd t) :
+theorem good_taskEnding {cap : Cap} (p : Pool) (t : Nat) (hg : Good cap p) (hr : p.ReadyToEnd t) :
     Good cap (p.taskEnding t) := by
   unfold taskEnding
   obtain ⟨tk, a, b, c⟩ := hr
@@ -244,10 +271,10 @@ theorem good_taskEnding {cap : Nat} (p : Pool) (t : Nat) (hg : Good cap p) (hr :
 
 /-! ### the phases of the wrapper -/
 
-theorem _root_.Taskpool.Tame.goodU {cap : Nat} {p q : Pool} {t : Nat} (h : Tame p q) (hg : Good cap p)
+theorem _root_.Taskpool.Tame.goodU {cap : Cap} {p q : Pool} {t : Nat} (h : Tame p q) (hg : Good cap p)
     (hu : p.Unreleased t) : Good cap q ∧ q.Unreleased t := ⟨h.good hg, h.unreleased hu⟩
 
-theorem goodU_suspendTask {cap : Nat} (p : Pool) (t : Nat) (ph : Phase) (hg : Good cap p) (hu : p.Unreleased t)
+theorem goodU_suspendTask {cap : Cap} (p : Pool) (t : Nat) (ph : Phase) (hg : Good cap p) (hu : p.Unreleased t)
     (hc : t ∉ p.cancelledR ∨ (ph ≠ .created ∧ ph ≠ .inWorker)) :
     Good cap (p.suspendTask t ph) ∧ (p.suspendTask t ph).Unreleased t := by
   refine ⟨good_suspendTask p t ph hg hu hc, ?_⟩
@@ -264,7 +291,7 @@ theorem goodU_suspendTask {cap : Nat} (p : Pool) (t : Nat) (ph : Phase) (hg : Go
     · exact (good_modTask_unreleased p t (fun k => { k with phase := ph, fut := .pending }) hg hu (fun _ => rfl) hs2).2
 
 /-- the cancel callback with its user code, while the task still holds its slot -/
-theorem good_runCb_cancel {cap : Nat} (p : Pool) (t : Nat) (tk : PTask) (hg : Good cap p) (hu : p.Unreleased t) :
+theorem good_runCb_cancel {cap : Cap} (p : Pool) (t : Nat) (tk : PTask) (hg : Good cap p) (hu : p.Unreleased t) :
     Good cap (p.runCb t tk false).1 ∧ (p.runCb t tk false).1.Unreleased t := by
   unfold runCb
   simp only [Bool.false_eq_true, if_false]
@@ -290,7 +317,7 @@ theorem runCb_cancel_ready (p : Pool) (t : Nat) (tk : PTask) (hr : p.ReadyToEnd 
     exact Tame.trans (tame_logEv _ _) (tame_modTask _ t _ (fun _ => rfl) (fun _ => Or.inl rfl))
   · rename_i h; simp [h] at hns
 
-theorem good_cancelCallback {cap : Nat} (p : Pool) (t : Nat) (tk : PTask) (hg : Good cap p) (hr : p.ReadyToEnd t) :
+theorem good_cancelCallback {cap : Cap} (p : Pool) (t : Nat) (tk : PTask) (hg : Good cap p) (hr : p.ReadyToEnd t) :
     Good cap (p.cancelCallback t tk) := by
   unfold cancelCallback
   simp only
@@ -304,7 +331,7 @@ theorem nonNYR_ne (ph : Phase) (h : NYR ph = false) : ph ≠ .created ∧ ph ≠
   ⟨fun e => by rw [e] at h; exact absurd h (by decide), fun e => by rw [e] at h; exact absurd h (by decide)⟩
 
 /-- the id moves from the running to the cancelled registry -/
-theorem good_regCancel {cap : Nat} (p : Pool) (t : Nat) (hg : Good cap p) (hr : p.ReadyToEnd t) (ht : t ∈ p.running) :
+theorem good_regCancel {cap : Cap} (p : Pool) (t : Nat) (hg : Good cap p) (hr : p.ReadyToEnd t) (ht : t ∈ p.running) :
     Good cap ({ p with running := p.running.erase t, cancelledR := p.cancelledR ++ [t] } : Pool) ∧
     ({ p with running := p.running.erase t, cancelledR := p.cancelledR ++ [t] } : Pool).ReadyToEnd t := by
   obtain ⟨tk, a, b, c⟩ := hr
@@ -313,7 +340,7 @@ theorem good_regCancel {cap : Nat} (p : Pool) (t : Nat) (hg : Good cap p) (hr : 
   rw [a] at h; cases h
   exact nonNYR_ne _ c
 
-theorem good_taskCancellation {cap : Nat} (p : Pool) (t : Nat) (tk : PTask) (hg : Good cap p) (hr : p.ReadyToEnd t) :
+theorem good_taskCancellation {cap : Cap} (p : Pool) (t : Nat) (tk : PTask) (hg : Good cap p) (hr : p.ReadyToEnd t) :
     Good cap (p.taskCancellation t tk) := by
   unfold taskCancellation
   split
@@ -327,14 +354,14 @@ theorem good_taskCancellation {cap : Nat} (p : Pool) (t : Nat) (tk : PTask) (hg 
     exact good_taskEnding _ t (t1.good hg1) (t1.readyToEnd hr1)
 
 /-- an unreleased task enters `wrapUp` and then `_task_ending` -/
-theorem good_wrapUp_ending {cap : Nat} (p : Pool) (t : Nat) (f : PTask → PTask) (hg : Good cap p) (hu : p.Unreleased t)
+theorem good_wrapUp_ending {cap : Cap} (p : Pool) (t : Nat) (f : PTask → PTask) (hg : Good cap p) (hu : p.Unreleased t)
     (hr : ∀ x, (f x).released = x.released) (hp : ∀ x, NYR (f x).phase = false) :
     Good cap ((p.modTask t f).taskEnding t) :=
   good_taskEnding _ t (good_modTask_unreleased p t f hg hu hr (phaseSafe_of_nonNYR p t f hp)).1
     (modTask_readyToEnd p t f hu hr hp)
 
 /-- the worker coroutine is over (normally or with an exception): `wrapUp`, then `_task_ending` -/
-theorem good_afterWorker {cap : Nat} (p : Pool) (t : Nat) (e : Option Err) (hg : Good cap p) (hu : p.Unreleased t) :
+theorem good_afterWorker {cap : Cap} (p : Pool) (t : Nat) (e : Option Err) (hg : Good cap p) (hu : p.Unreleased t) :
     Good cap (p.afterWorker t e) := by
   unfold afterWorker
   split
@@ -343,7 +370,7 @@ theorem good_afterWorker {cap : Nat} (p : Pool) (t : Nat) (e : Option Err) (hg :
   · obtain ⟨hg1, hu1⟩ := Tame.goodU (tame_logEv p (Ev.raised t)) hg hu
     exact good_wrapUp_ending _ t _ hg1 hu1 (fun _ => rfl) (fun _ => rfl)
 
-theorem good_stepCreated {cap : Nat} (p : Pool) (t : Nat) (tk : PTask) (hg : Good cap p) (hu : p.Unreleased t)
+theorem good_stepCreated {cap : Cap} (p : Pool) (t : Nat) (tk : PTask) (hg : Good cap p) (hu : p.Unreleased t)
     (hnc : t ∉ p.cancelledR) : Good cap (p.stepCreated t tk) := by
   unfold stepCreated
   split
@@ -367,7 +394,7 @@ theorem good_stepCreated {cap : Nat} (p : Pool) (t : Nat) (tk : PTask) (hg : Goo
     · exact good_afterWorker _ t _ hg2 hu2
     · exact good_suspendTask _ t _ hg2 hu2 (Or.inl hnc2)
 
-theorem good_workerCancelled {cap : Nat} (p : Pool) (t : Nat) (tk : PTask) (hg : Good cap p) (hu : p.Unreleased t) :
+theorem good_workerCancelled {cap : Cap} (p : Pool) (t : Nat) (tk : PTask) (hg : Good cap p) (hu : p.Unreleased t) :
     Good cap (p.workerCancelled t tk) := by
   unfold workerCancelled
   simp only
@@ -379,7 +406,7 @@ theorem good_workerCancelled {cap : Nat} (p : Pool) (t : Nat) (tk : PTask) (hg :
   · exact good_afterWorker _ t _ hg1 hu1
   · exact good_taskCancellation _ t tk hg1 (modTask_readyToEnd _ t _ hu0 (fun _ => rfl) (fun _ => rfl))
 
-theorem good_stepInWorker {cap : Nat} (p : Pool) (t : Nat) (tk : PTask) (hg : Good cap p) (hu : p.Unreleased t) :
+theorem good_stepInWorker {cap : Cap} (p : Pool) (t : Nat) (tk : PTask) (hg : Good cap p) (hu : p.Unreleased t) :
     Good cap (p.stepInWorker t tk) := by
   unfold stepInWorker
   split
@@ -391,7 +418,7 @@ theorem good_stepInWorker {cap : Nat} (p : Pool) (t : Nat) (tk : PTask) (hg : Go
     · exact good_afterWorker p t _ hg hu
     · exact hg
 
-theorem good_stepInCancelCb {cap : Nat} (p : Pool) (t : Nat) (tk : PTask) (hg : Good cap p) (hu : p.Unreleased t) :
+theorem good_stepInCancelCb {cap : Cap} (p : Pool) (t : Nat) (tk : PTask) (hg : Good cap p) (hu : p.Unreleased t) :
     Good cap (p.stepInCancelCb t tk) := by
   unfold stepInCancelCb
   split
@@ -414,7 +441,7 @@ theorem tame_stepInEndCb (p : Pool) (t : Nat) (tk : PTask) : Tame p (p.stepInEnd
   · exact Tame.refl p
 
 /-- one step of any pool task preserves slot conservation, the phase invariant and the registry invariant -/
-theorem good_stepTask {cap : Nat} (p : Pool) (t : Nat) (hg : Good cap p) : Good cap (p.stepTask t) := by
+theorem good_stepTask {cap : Cap} (p : Pool) (t : Nat) (hg : Good cap p) : Good cap (p.stepTask t) := by
   unfold stepTask
   split
   · exact hg
